@@ -40,7 +40,7 @@ def run_case(case, rng):
     if set(S) != set(sp.states):
         raise Inconclusive("state_list differs from closure (C06's subject)")
     gamma = sp.gamma
-    cap = rng.choice([50, 1000])
+    cap = rng.choice([50, 1000, 1000, 1, 2, 5])
     arr = Rf.Arr(sp, states=S, actions=A)
     pinned = arr.absorbing.copy()
     case.family = fam
